@@ -232,5 +232,6 @@ func runC43(c *Ctx) []Obligation {
 		c.nilGuardedReceiver(P, "auth.validate-tolerates-nil-pubkey", "x/auth/types.ValidateGenesis", `^invoke x/auth/exported\.Account\.GetPubKey\(`, "exported accounts may carry no public key"),
 	)
 	out = append(out, c.decodeTargetsFresh(P)...)
+	out = append(out, genesisParamsInstalled(c, P)...)
 	return out
 }
